@@ -1,5 +1,8 @@
 (* Model of the language handling of pycaption (C14):
-     DFXPReader.read (xml:lang fallback, dict of languages), DFXPWriter.write / LegacyDFXPWriter.write (force=),
+     DFXPReader.read (xml:lang fallback through enclosing divs, dict of languages, further divs of a language extend
+     its list, every <p> under its nearest div in document order),
+     DFXPWriter.write / LegacyDFXPWriter.write (force=; the merge of concurrent captions done by the single-positioning
+     and legacy writers is NOT modelled: the harness joins the texts of equal (start, end) runs itself),
      SAMIParser._find_lang + handle_starttag + SAMIReader.read/_translate_lang (languages in order of first <p>,
      exact selection by the resolved language), SAMIWriter (_recreate_p_tag, _recreate_blank_tag,
      _recreate_sync, _find_closest_sync: where each <p> is put in the body), WebVTTWriter.write(lang=).
@@ -38,8 +41,36 @@ Definition div_lang (own tt : option str) (default : str) : str :=
 
 Record dfxp_doc := mkDfxp { d_tt : option str; d_divs : list (option str * list cue) }.
 
+(* caption_dict[lang].extend(captions) for a language met before, else caption_dict[lang] = captions *)
+Fixpoint dict_extend (k : str) (v : list cue) (d : capset) : capset :=
+  match d with
+  | [] => [(k, v)]
+  | (k', v') :: t => if str_eqb k' k then (k', v' ++ v) :: t else (k', v') :: dict_extend k v t
+  end.
+
+(* d_divs: the SEGMENTS of the document in document order (see flatten_body below): an entry without cues for every
+   <div> where it opens (it registers the language), an entry with one cue for every <p> under its nearest div *)
 Definition dfxp_read (default : str) (doc : dfxp_doc) : capset :=
-  fold_left (fun d dv => dict_set (div_lang (fst dv) (d_tt doc) default) (snd dv) d) (d_divs doc) [].
+  fold_left (fun d dv => dict_extend (div_lang (fst dv) (d_tt doc) default) (snd dv) d) (d_divs doc) [].
+
+(* the <body> as a tree of divs and paragraphs (integrated reader: `_find_div_language` - the xml:lang of the div,
+   else of the nearest enclosing div; every <p> belongs to its nearest div; a <p> outside every div is skipped).
+   In the real code the keys are registered by a first loop over find_all('div') and the paragraphs appended by a
+   second loop over find_all('p'); one pre-order pass gives the same dict because a div opens before its paragraphs *)
+Inductive dnode : Type :=
+| DP (c : cue)
+| DDiv (lang : option str) (kids : list dnode).
+Fixpoint flatten_node (inh : option str) (n : dnode) : list (option str * list cue) :=
+  match n with
+  | DP c => [(inh, [c])]
+  | DDiv l kids =>
+      let own := match l with Some _ => l | None => inh end in
+      (own, []) :: flat_map (flatten_node own) kids
+  end.
+Definition flatten_body (nodes : list dnode) : list (option str * list cue) :=
+  flat_map (fun n => match n with DP _ => [] | DDiv _ _ => flatten_node None n end) nodes.
+Definition dfxp_read_tree (default : str) (tt : option str) (nodes : list dnode) : capset :=
+  dfxp_read default (mkDfxp tt (flatten_body nodes)).
 
 (* ---- DFXP write ------------------------------------------------------------------------------------------ *)
 Definition dfxp_default_language : str := lit "en".
@@ -100,15 +131,6 @@ Definition sami_read (default : str) (styles : sami_styles) (ps : list sami_p) :
                         (filter (fun lp => str_eqb (fst lp) l && negb (is_blank_text (sp_text (snd lp)))) tagged)))
       (first_appearance (map fst tagged)).
 
-(* the selection the unrepaired reader made: CSS p[lang|=l] = equal to l or starting with l followed by '-' *)
-Definition lang_prefix_match (l v : str) : bool :=
-  str_eqb v l || is_prefix (l ++ [45]) v.
-Definition sami_read_prefix (default : str) (styles : sami_styles) (ps : list sami_p) : capset :=
-  let tagged := map (fun p => (p_lang default (sp_attrs p) styles, p)) ps in
-  map (fun l => (l, map (fun lp => (sp_start (snd lp) * 1000, sp_text (snd lp)))
-                        (filter (fun lp => lang_prefix_match l (fst lp) && negb (is_blank_text (sp_text (snd lp)))) tagged)))
-      (first_appearance (map fst tagged)).
-
 (* ---- SAMI write: where paragraphs go ------------------------------------------------------------------- *)
 Definition par := (str * str)%type.                    (* class, text *)
 Definition sync := (Z * list par)%type.                (* start (ms), paragraphs *)
@@ -155,7 +177,9 @@ Definition place (primary : bool) (t : Z) (p : par) (b : body) : body :=
   if primary then b ++ [(t, [p])]
   else match add_to_first t p b with Some b' => b' | None => find_closest t p b end.
 
-(* a caption as the writer sees it: start, end (microseconds), class, text *)
+(* a caption as the writer sees it: start, end (microseconds), text.  Paragraphs are tagged with the LANGUAGE they
+   are written under; which class name carries that language (_recreate_p_lang, _recreate_stylesheet) is modelled
+   separately below (p_class / sheet_langs) *)
 Record wcue := mkWcue { wc_start : Z; wc_end : Z; wc_text : str }.
 
 (* _recreate_p_tag over one language (after `fix: SAMI writer omitted the blank sync after a cue ending in
@@ -180,6 +204,29 @@ Fixpoint write_langs (first : bool) (cs : list (str * list wcue)) (b : body) : b
   | (l, caps) :: t => write_langs false t (write_lang first l caps None b)
   end.
 Definition sami_write (cs : list (str * list wcue)) : body := write_langs true cs [].
+
+(* ---- SAMI write: which class carries the language ---------------------------------------------------------- *)
+(* styles: class name -> value of its `lang` property, if it has one.
+   _recreate_p_lang (repaired): the caption's class is kept only if it declares the language being written *)
+Definition p_class (lang : str) (cap_class : option str) (styles : list (str * option str)) : str :=
+  match cap_class with
+  | Some c => match dict_get c styles with
+              | Some (Some l) => if str_eqb l lang then c else lang
+              | _ => lang
+              end
+  | None => lang
+  end.
+(* _recreate_stylesheet (repaired): the styles' own blocks, then one block per language unless a style of exactly
+   that name declares it.  Result: (class, declared language) in the order written *)
+Definition sheet_langs (styles : list (str * option str)) (langs : list str) : list (str * str) :=
+  flat_map (fun cl => match snd cl with Some l => [(fst cl, l)] | None => [] end) styles
+  ++ flat_map (fun l => match dict_get l styles with
+                        | Some (Some l') => if str_eqb l' l then [] else [(l, l)]
+                        | _ => [(l, l)]
+                        end) langs.
+(* the language a class resolves to on re-reading: the LAST block of that class wins (the parser overwrites) *)
+Definition resolve_class (c : str) (sheet : list (str * str)) : option str :=
+  dict_get c (rev sheet).
 
 (* ---- WebVTT lang= ----------------------------------------------------------------------------------------- *)
 Definition vtt_select (lang : option str) (cs : capset) : result (list cue) :=
